@@ -46,18 +46,18 @@ def showVal : Val → String
   | .t v => "t:" ++ showTup v
   | .ts vs => "L:" ++ (if vs.isEmpty then "." else "/".intercalate (vs.map showTup))
 
-/-- fields in declaration order -/
+/-- fields in declaration order, then the AndX block if the command holds one -/
 def showEnv (c : Cmd) (env : Env) : String :=
-  let parts := c.fields.filterMap (fun (f, _) => (env.get f).map (fun v => f ++ "=" ++ showVal v))
+  let parts := (c.fields.map (·.1) ++ [andxField]).filterMap (fun f => (env.get f).map (fun v => f ++ "=" ++ showVal v))
   if parts.isEmpty then "." else ";".intercalate parts
 
 def findCmd (name : String) : Option Cmd := Manticore.Gen.SmbCommands.commands.find? (·.name == name)
 
 def C := Manticore.SmbCodecs.std
 
-/-- first field (declaration order) on which two environments differ -/
+/-- first field (declaration order; for an AndX command the AndX block comes last) on which two environments differ -/
 def firstDiff (c : Cmd) (a b : Env) : Option String :=
-  (c.fields.find? (fun (f, _) => a.get f != b.get f)).map (·.1)
+  c.roundTripFields.find? (fun f => a.get f != b.get f)
 
 /-- canonical result of the round-trip op, shared by model and harness:
     `ok eq|diff:<field> same|reenc-diff` -/
